@@ -581,6 +581,21 @@ pub async fn plan_with_rlte(
         );
         (candidates, t_star.to_string(), true)
     } else {
+        // A numeric field whose zone envelopes cannot guarantee k rows has no sound cutoff: do not
+        // prune at all. The string greedy below compares ladder entries as text and is only
+        // meaningful for fields that are not numeric.
+        let numeric_field = catalog.fields.get(&field).is_some_and(|cf| {
+            cf.ladders
+                .iter()
+                .any(|(_, ladder)| RlteCatalog::min_max_numeric(ladder).is_some())
+        });
+        if numeric_field {
+            debug!(target: "rlte::planner",
+                "No numeric cutoff guarantees k={} rows for field='{}'; leaving all zones in place",
+                k, field
+            );
+            return None;
+        }
         // String fallback greedy
         let (_ts, candidates, t_star) = greedy_cutoff_string(&catalog, &field, asc, k, zone_size)?;
         debug!(target: "rlte::planner",
